@@ -20,7 +20,8 @@ C_KINDS = ("cfg", "cmd", "stage")
 CFG = {
     "quick":    dict(mc=("MC_Containers.cfg", "MC_Containers_cfg.cfg"), gen="Gen_Containers.cfg", nhist=8, steps=40,
                      iomc="MC_IoBuf.cfg", iogen="Gen_IoBuf.cfg", ionhist=10, iosteps=40),
-    "thorough": dict(mc=("MC_Containers_t.cfg", "MC_Containers_t2.cfg", "MC_Containers_cfg_t.cfg"), gen="Gen_Containers_t.cfg",
+    "thorough": dict(mc=("MC_Containers_t.cfg", "MC_Containers_t2.cfg", "MC_Containers_cfg_t.cfg",
+                         "MC_Containers_cfg_t2.cfg"), gen="Gen_Containers_t.cfg",
                      nhist=40, steps=80, iomc="MC_IoBuf_t.cfg", iogen="Gen_IoBuf_t.cfg", ionhist=80, iosteps=80),
 }
 ANY_OUT = -99
@@ -220,10 +221,11 @@ def do_gen(cfgname):
 # --------------------------------------------------------------------------
 NH, NO, NN = 4, 4, 5
 HEAP_NAMES = (2, 5)
+SOLO = (3, 4)        # objects that refuse further references (Trace_Containers.cfg: Solo); 4 = a library text metatype (cfg)
 
 
 def gen_history(rng, kind, steps):
-    beh = [{"a": "init", "arg": {"kind": kind, "n": NH, "no": NO}}]
+    beh = [{"a": "init", "arg": {"kind": kind, "n": NH, "no": NO, "solo": list(SOLO)}}]
     est = [0] * NH
 
     def pos(h):
